@@ -72,6 +72,7 @@ def run(prog, chk):
     for_items_verbatim(prog, chk)
     visited_starts_empty(prog, chk)
     conditions_evaluated_alike(prog, chk)
+    list_is_what_was_evaluated(prog, chk)
     from props import C17
     C17.limit_predicates(prog, chk)  # each loop is bounded on its own: the count compared with loop_limit is that loop's own counter
     loop_variable_names_verbatim(prog, chk)
@@ -79,6 +80,21 @@ def run(prog, chk):
     from props import geomalg
     n = geomalg.check_sites(prog, chk, "C16")
     chk.floor("A17.site-algebra", n, 5, "loop parameter default case")
+
+
+def list_is_what_was_evaluated(prog, chk):
+    """the items of a <for data=..> are the items of the evaluated list: every successful return of eval_list hands
+    back the to_string_vec() of the evaluated expression - nothing is substituted for special-looking lists"""
+    b = prog.body("svgdx::expression::eval_list")
+    chk.touch(b)
+    oks = [(x, i, st) for x, i, st in b.all_stmts() if "lhs" in st and st["lhs"][0] == 0 and not st["lhs"][1] and st["rv"].get("k") == "aggr" and st["rv"].get("variant") == "Ok"]
+    chk.floor("A13.list-items", len(oks), 1, "Ok exit of eval_list")
+    bad = []
+    for (x, i, st) in oks:
+        ops = st["rv"].get("ops") or []
+        if not ops or not _passes_through(b, ops[0], ("to_string_vec",)):
+            bad.append(b.where(x, st.get("line")))
+    chk.ob(not bad, "A13.list-items", "eval_list", b.where(), "every list eval_list returns is the evaluated expression's own items (to_string_vec)", f"eval_list returns a list that is not the evaluated items at {bad}: some data lists are replaced by something else (a range, a default ...), so <for> repeats its body for items the document does not contain")
 
 
 def _passes_through(body, op, names, depth=10):
